@@ -18,6 +18,8 @@ PROPERTY = {
 def check(run):
     from checks.main import reflection_bounded, transforms_bounded
     reflection_bounded(run)
+    from checks.main import load_bounded
+    load_bounded(run)
     # A-TREE preservation of the seasoning transforms (what _yatiml_savorize
     # hands on to recognition is a tree): bounded stand-in
     transforms_bounded(run)
